@@ -10,9 +10,13 @@ Mark bits are the fixed values the harness configures.  Core Lean only.
 -/
 namespace CalicoVerif.C40
 
-abbrev markAccept : Nat := 0x10000
-abbrev markPass : Nat := 0x20000
-abbrev markAll : Nat := 0xf0000      -- allCalicoMarkBits()
+abbrev markAccept : Nat := 2 ^ 16      -- 0x10000
+abbrev markPass : Nat := 2 ^ 17        -- 0x20000
+abbrev markScratch0 : Nat := 2 ^ 18    -- 0x40000
+abbrev markScratch1 : Nat := 2 ^ 19    -- 0x80000
+abbrev markAll : Nat := 2 ^ 16 ||| 2 ^ 17 ||| 2 ^ 18 ||| 2 ^ 19      -- allCalicoMarkBits() = 0xf0000
+abbrev markAllButAccept : Nat := 2 ^ 17 ||| 2 ^ 18 ||| 2 ^ 19       -- 0xe0000
+abbrev markAcceptPass : Nat := 2 ^ 16 ||| 2 ^ 17                     -- 0x30000
 
 /-- `config.ProtoPort` with the net already parsed (IPv4 only; `netLen = none` = no net). -/
 structure ProtoPort where
@@ -20,6 +24,8 @@ structure ProtoPort where
   protoNum : Nat
   port : Nat
   net : Option (String × Nat × Nat) := none
+  /-- the entry carries a net of the other IP family (IPv6): `failsafeInChain(_, 4)` skips it -/
+  otherFamily : Bool := false
 deriving Repr, DecidableEq
 
 structure Config where
@@ -57,15 +63,16 @@ def failsafeRule (pp : ProtoPort) (dstPort : Bool) (srcNet : Bool) : Rule :=
               | none => []),
     action := .accept }
 
-/-- `failsafeInChain(table, 4)`. -/
+/-- `failsafeInChain(table, 4)`: entries whose net is of the other IP family are skipped (an
+unparseable net is skipped too, with an error log; the generator does not produce those). -/
 def failsafeInChain (c : Config) (raw : Bool) : List Rule :=
-  c.failsafeIn.map (fun pp => failsafeRule pp true true) ++
-  (if raw then c.failsafeOut.map (fun pp => failsafeRule pp false true) else [])
+  (c.failsafeIn.filter (fun pp => !pp.otherFamily)).map (fun pp => failsafeRule pp true true) ++
+  (if raw then (c.failsafeOut.filter (fun pp => !pp.otherFamily)).map (fun pp => failsafeRule pp false true) else [])
 
 /-- `failsafeOutChain(table, 4)`. -/
 def failsafeOutChain (c : Config) (raw : Bool) : List Rule :=
-  c.failsafeOut.map (fun pp => failsafeRule pp true false) ++
-  (if raw then c.failsafeIn.map (fun pp => failsafeRule pp false false) else [])
+  (c.failsafeOut.filter (fun pp => !pp.otherFamily)).map (fun pp => failsafeRule pp true false) ++
+  (if raw then (c.failsafeIn.filter (fun pp => !pp.otherFamily)).map (fun pp => failsafeRule pp false false) else [])
 
 def ipsetAllHosts := "cali40all-hosts-net"
 def ipsetVXLAN := "cali40all-vxlan-net"
@@ -113,9 +120,61 @@ def fwdTail : List Rule := [{ action := .jump chToHepFwd }, { action := .jump ch
 
 /-- `StaticFilterForwardChains(4)` (no nft flow offload). -/
 def filterForwardChain (c : Config) : List Rule :=
-  { action := .clearMark (markAll - markAccept) } ::
+  { action := .clearMark markAllButAccept } ::
   { crits := [.markClear markAccept], action := .jump chFromHepFwd } ::
   (fwdPrefixRules c.prefixes ++ fwdTail)
+
+def chRawPrerouting := "cali-PREROUTING"
+def chRawOutput := "cali-OUTPUT"
+def chRpfSkip := "cali-rpf-skip"
+def chOutput := "cali-OUTPUT"
+
+def vxlanNotrack (c : Config) : List Rule :=
+  if c.vxlan then [{ crits := [.protoName "udp" 17, .dport1 c.vxlanPort], action := .notrack }] else []
+
+/-- `StaticRawPreroutingChain(4)` (wireguard and OpenStack special cases off). -/
+def rawPreroutingChain (c : Config) : List Rule :=
+  { action := .clearMark markAll } ::
+  (vxlanNotrack c ++
+   (c.prefixes.map (fun pfx => ({ crits := [.inIf (pfx ++ "+")], action := .setMark markScratch0 } : Rule)) ++
+    [{ crits := [.markSet markScratch0], action := .jump chRpfSkip },
+     { crits := [.markSet markScratch0, .rpfFailed], action := .drop },
+     { crits := [.markClear markScratch0], action := .jump chFromHep },
+     { crits := [.markSet markAccept], action := .accept }]))
+
+/-- `StaticRawOutputChain(0, 4)`. -/
+def rawOutputChain (c : Config) : List Rule :=
+  { action := .clearMark markAll } :: { action := .jump chToHep } ::
+  (vxlanNotrack c ++ [{ crits := [.markSet markAccept], action := .accept }])
+
+/-- `StaticManglePreroutingChain(4)`. -/
+def manglePreroutingChain (c : Config) : List Rule :=
+  [{ crits := [.ctEstablished], action := c.mangleAllow },
+   { crits := [.markSet markAccept], action := c.mangleAllow },
+   { action := .jump chFromHep },
+   { comment := some "Host endpoint policy accepted packet.", crits := [.markSet markAccept], action := c.mangleAllow }]
+
+def outputTunnelRules (c : Config) : List Rule :=
+  (if c.ipip then
+    [{ comment := some "Allow IPIP packets to other Calico hosts",
+       crits := [.protoNum 4, .dstSet ipsetAllHosts, .srcLocal], action := c.filterAllow }]
+   else []) ++
+  (if c.vxlan then
+    [{ comment := some "Allow IPv4 VXLAN packets to other allowed hosts",
+       crits := [.protoNum 17, .dports c.vxlanPort, .srcLocal, .dstSet ipsetVXLAN], action := c.filterAllow }]
+   else [])
+
+def outputPrefixRule (pfx : String) : Rule := { crits := [.outIf (pfx ++ "+")], action := .ret }
+
+def outputTail (c : Config) : List Rule :=
+  [{ action := .clearMark markAll },
+   { crits := [.notCtDNAT], action := .jump chToHep },
+   { comment := some "Host endpoint policy accepted packet.", crits := [.markSet markAccept], action := c.filterAllow }]
+
+/-- `filterOutputChain(4)` (kube-ipvs and wireguard off). -/
+def filterOutputChain (c : Config) : List Rule :=
+  { crits := [.markSet markAccept], action := c.filterAllow } ::
+  (c.prefixes.map outputPrefixRule ++ (outputTunnelRules c ++ outputTail c))
 
 /-- a tier as the host endpoint chain sees it: policies by chain name, staged ones are skipped. -/
 structure Tier where
@@ -174,7 +233,7 @@ VXLAN/IPIP encap always allowed). -/
 def hepChain (c : Config) (k : HepKind) (tiers : List Tier) : List Rule :=
   (if k.untracked then [] else conntrackRules c (k.allow c)) ++
   [{ action := .jump (if k.ingress then chFailsafeIn else chFailsafeOut) },
-   { action := .clearMark (markAccept + markPass) }] ++
+   { action := .clearMark markAcceptPass }] ++
   (tiers.map (tierRules k)).flatten ++
   (if k.normal then [{ comment := some "Drop if no profiles matched", action := .drop }] else [])
 
